@@ -108,6 +108,8 @@ def run(check, ctx):
     from .. import crules
     cdb = ctx.cdb
     crules.p1_no_writable_globals(check, cdb)
+    # the curve / Montgomery contexts are shared by all points and threads: read-only after construction
+    crules.shared_context_rule(check, cdb)
     F = cdb.functions()
     ncopy = 0
     for name in sorted(F):
